@@ -1,5 +1,6 @@
 //! dpmc-core: checks C01–C09, C11–C13 (managed and unmanaged pool core).
 mod conc;
+mod seq;
 mod mworld;
 mod scenarios;
 
@@ -7,9 +8,12 @@ use dpmc::report::{parse_args, run_check};
 
 fn main() {
     let args = parse_args();
-    let spec = scenarios::spec_for(&args.property, args.tier);
+    let spec = scenarios::spec_for(args.spec.as_deref().unwrap_or(&args.property), args.tier);
     match spec {
-        Some(s) => run_check(&args, s),
+        Some(mut s) => {
+            s.property = args.property.clone();
+            run_check(&args, s)
+        }
         None => {
             eprintln!("unknown property {}", args.property);
             std::process::exit(2);
